@@ -246,3 +246,11 @@ def edits():
 
 def fb2(x=0, y=1, z=2):
   return ('fb2', x, y, z)
+
+
+def fk(x=0, **kw):
+  return ('fk', x, tuple(sorted(kw.items())))
+
+
+def fk2(x=0, y=1, **kw):
+  return ('fk2', x, y, tuple(sorted(kw.items())))
